@@ -74,7 +74,7 @@ func run(c peng.Case) vt.Verdict {
 func TestProp(t *testing.T) {
 	vt.Main(t, vt.Spec[peng.Case]{
 		ID:           "C05",
-		Rule:         "rapid-generated concurrent programs: one or two client managers (their message ids collide), 3-6 servers, up to 4 overlapping configurations (in a quarter of the cases some of them register their servers a second time under other node ids - one address, two nodes), 2-8 threads issuing 6-60 calls of all kinds with unique tokens; handlers release at once and answer after generated delays up to 6 ms while calls carry cancellations/deadlines of 1 us - 5 ms (replies arrive long after the call ended), in a quarter of the cases one or two injected failures of single stream writes of the first manager (streams are re-created under calls in flight), in a quarter one to three cuts of the connections to a server that keeps listening, in half of the cases seeded jitter at the statement-level yield points of the instrumented runtime; oracle: every reply shown to any quorum function and every RPC result carries the call's own token, sits under the node that produced it and equals what that handler produced (stamps: token, node, serial, payload hash), entries never change between invocations of non-streaming calls, no quorum function runs after its call returned; non-trivial (measured) = two calls overlapping in time on a shared node, or a reply produced after its call ended",
+		Rule:         "rapid-generated concurrent programs: one or two client managers (their message ids collide), 3-6 servers, up to 4 overlapping configurations (in a quarter of the cases some of them register their servers a second time under other node ids - one address, two nodes), 2-8 threads issuing 6-60 calls of all kinds with unique tokens; handlers release at once and answer after generated delays up to 6 ms while calls carry cancellations/deadlines of 1 us - 5 ms (replies arrive long after the call ended), in a quarter of the cases one or two injected failures of single stream writes of the first manager (streams are re-created under calls in flight), in a quarter one to three cuts of the connections to a server that keeps listening, in half of the cases seeded jitter at the statement-level yield points of the instrumented runtime; oracle: every reply shown to any quorum function and every RPC result carries the call's own token, sits under the node that produced it and equals what that handler produced (stamps: token, node, serial, payload hash), entries never change between invocations of non-streaming calls, no quorum function runs after its call returned; non-trivial (measured) = two calls overlapping in time on a shared node, or a reply produced after its call ended; additionally a node of a non-streaming call is heard of once, as a reply or as an error (no node listed twice among a call's node errors, none listed whose reply the quorum function was shown)",
 		Gen:          gen,
 		Run:          run,
 		TrackCurrent: true,
